@@ -22,8 +22,10 @@ Input spaces: small-scope exhaustive + seeded random (this file: every call on n
 enumeration), and - checks/C16_round2.py - a size ladder (hundreds to thousands of items, optimum by an independent capacity DP
 / certified by planted packings), fine-grained numerics (dyadic grids, exact fits), and history mode (programs of calls and
 in-place edits on the SAME argument objects inside one fresh process, every call judged on the contents at that call, last call
-compared with an isolated call in another fresh process; obligation ensures:same-answer-in-a-fresh-process).  The contract
-functions judge_knap / judge_bin are shared by all of them.
+compared with an isolated call in another fresh process; obligation ensures:same-answer-in-a-fresh-process), and -
+checks/C16_round3.py - multiplicity instances (2..5 distinct sizes / item types, long runs of identical items, every
+multiplicity vector of a box, optimum by a pattern DP over the box).  The contract functions judge_knap / judge_bin are shared
+by all of them.
 """
 from __future__ import annotations
 
@@ -538,8 +540,9 @@ TASKS = {f.__name__: f for f in (t_k_int_ordered, t_k_int_multiset, t_k_dec, t_k
 def work(task):
     import time
     from checks import C16_round2 as r2
+    from checks import C16_round3 as r3
     t0 = time.process_time()
-    res = (TASKS.get(task[0]) or r2.TASKS[task[0]])(*task[1:])
+    res = (TASKS.get(task[0]) or r2.TASKS.get(task[0]) or r3.TASKS[task[0]])(*task[1:])
     res["cpu"] = time.process_time() - t0
     return task[0], res
 
@@ -621,7 +624,10 @@ def plan(ctx: Ctx):
               optimum="known by construction")
     from checks import C16_round2 as r2
     tasks += r2.plan_single(ctx, rng)
-    return tasks, r2.plan_history(ctx, rng)
+    hist = r2.plan_history(ctx, rng)
+    from checks import C16_round3 as r3
+    tasks += r3.plan(ctx)  # multiplicity families (own generator: everything planned above keeps its seeds)
+    return tasks, hist
 
 
 def run(ctx: Ctx):
@@ -638,6 +644,8 @@ def run(ctx: Ctx):
     use_repo()
     from checks import C16_round2 as r2
     n_self = r2.selftest_oracles(ctx.seed)  # the new oracles against complete enumeration, before anything is judged with them
+    from checks import C16_round3 as r3
+    n_self += r3.selftest(ctx.seed)  # binpack_mult against subset decomposition and the certificate checker
     tasks, hist_tasks = plan(ctx)
     # long tasks first (better pool balance), deterministic order of results kept by pmap
     heavy = {"t_kl": -2, "t_bl": -1, "t_k_int_multiset": 0, "t_k_dec": 0, "t_k_fill": 1, "t_k_int_ordered": 2, "t_b_exh": 3}
@@ -689,7 +697,7 @@ def run(ctx: Ctx):
                 "positive. Non-trivial packing case: >=2 items and the optimum needs >=2 bins. Distinct = different (unit, multiset-sorted "
                 "item list as generated, capacity[, algorithm]); permutations, minimize and float-typed variants of one list are evaluated "
                 "but not counted as distinct. Size ladder: one seeded instance per (size, capacity, family, order) tuple, distinct by "
-                "construction. History mode: a seeded program of operations per (task seed, position), executed in one fresh process; "
+                "construction. Multiplicity boxes: one case per (template, multiplicity vector, order[, algorithm | capacity]). History mode: a seeded program of operations per (task seed, position), executed in one fresh process; "
                 "counted as non-trivial: every judged call after the first of its program that is non-trivial by the rules above (these are "
                 "the calls made on objects the library has already seen); the isolated repetitions in fresh processes are counted as "
                 "evaluations only")
@@ -699,7 +707,8 @@ def run(ctx: Ctx):
         "documented absolute slack 1e-9 is at least 10x below one grid unit; gaps finer than that (e.g. 2^-40) are NOT exercised: there the "
         "library accepts an overweight of up to 1e-9 by design",
         "values, weights, sizes are non-negative; capacity >= 0 (knapsack) / > 0 (bin packing); no NaN/inf",
-        "11/9*OPT+6/9 is evaluated against the exact optimum (enumeration, <=9 items), an optimum known by construction (perfect packings), "
+        "11/9*OPT+6/9 is evaluated against the exact optimum (enumeration, <=9 items; pattern DP for the multiplicity boxes, up to ~60 items), "
+        "an optimum known by construction (perfect packings), "
         "or - size ladder / big histories - against a certified upper bound hi >= OPT (a checked planted packing): k > 11/9*hi+6/9 implies "
         "k > 11/9*OPT+6/9, so every reported violation is genuine; when the proven lower bound (volume, items > capacity/2) equals hi the "
         "optimum is known exactly (see result_statistics: 'optimum known' / 'optimum bounded')",
@@ -709,6 +718,8 @@ def run(ctx: Ctx):
     ctx.trusted += ["oracles/knapsack_bf.py (all 2^n subsets, integers)", "oracles/binpack_exact.py (subset decomposition, integers)",
                     "oracles/knapsack_dp.py (row DP over integer capacity; cross-checked against enumeration at the start of every run)",
                     "oracles/binpack_cert.py (volume / big-item lower bound, checker for planted packings; cross-checked against the exact optimum at the start of every run)",
+                    "oracles/binpack_mult.py (pattern DP over a box of multiplicity vectors; cross-checked against subset decomposition and the "
+                    "certificate checker at the start of every run; the library's own packings are checked against its lower side on every call)",
                     "fractions.Fraction -> float conversion (correctly rounded)", "os.fork gives the child the parent's module state"]
 
 
